@@ -786,7 +786,7 @@ func (t *termer) val(v *ValJ) string {
 	case "int":
 		return "(Some (TInt " + zlit(v.I) + "))"
 	case "uint":
-		return "(Some (TUint " + zlit(v.I) + "))"
+		return fmt.Sprintf("(Some (TUint %d%%N))", uint64(v.I))
 	case "bool":
 		return "(Some (TBool " + vh.Bool(v.B) + "))"
 	case "bytes":
